@@ -374,3 +374,16 @@ pub struct UploadSummary {
     pub record_count: usize,
     pub tokens_spent: Amount,
 }
+
+#[cfg(feature = "verif-hooks")]
+impl Client {
+    /// Verification hook: a client over a `Network` handle whose `SwarmDriver` the harness steps
+    /// by hand (nothing is dialled, no event loop is spawned).
+    pub fn verif_from_network(network: Network, evm_network: EvmNetwork) -> Self {
+        Self {
+            network,
+            client_event_sender: Arc::new(None),
+            evm_network,
+        }
+    }
+}
